@@ -92,7 +92,7 @@ def mangle(clsname, attr):
     return attr
 
 
-def version_test_value(test):
+def version_test_value(test, env=None):
     """Value of a module-level test on the interpreter version, on the Python 3 the analysis targets: True / False, or None
     when the test is about something else.  `sys.version_info[0]`, `.major`, comparisons of `sys.version_info` with a
     tuple, the PYTHON_2 / PYTHON_3 flags, combined with not / and / or and numeric literals."""
@@ -116,6 +116,8 @@ def version_test_value(test):
         if txt in ("PYTHON_3", "PYTHON3", "utils.PYTHON_3"):
             seen[0] = True
             return True
+        if isinstance(e, ast.Name) and env and e.id in env:
+            return ev(env[e.id])           # a module-level flag defined from the interpreter version
         if isinstance(e, ast.UnaryOp) and isinstance(e.op, ast.Not):
             v = ev(e.operand)
             return None if v is None else (not v)
@@ -148,9 +150,9 @@ def version_test_value(test):
     return bool(v) if (v is not None and seen[0]) else None
 
 
-def _is_py2_test(test):
+def _is_py2_test(test, env=None):
     """the test selects the Python 2 side (it is false on the analysed interpreter)"""
-    return version_test_value(test) is False
+    return version_test_value(test, env) is False
 
 
 def parse_module(name, text):
@@ -198,10 +200,17 @@ class Module(object):
                                     value=st.value, slice=ast.Constant(i), ctx=ast.Load())
 
     def _flatten(self, body):
+        if not hasattr(self, "_flag_env"):
+            self._flag_env = {}
         for st in body:
-            if isinstance(st, ast.If) and _is_py2_test(st.test):
+            if isinstance(st, ast.Assign) and len(st.targets) == 1 and isinstance(st.targets[0], ast.Name):
+                if st.targets[0].id in self._flag_env:
+                    self._flag_env[st.targets[0].id] = ast.Constant(value=Ellipsis)      # rebound: not a flag
+                else:
+                    self._flag_env[st.targets[0].id] = st.value
+            if isinstance(st, ast.If) and _is_py2_test(st.test, self._flag_env):
                 self._flatten(st.orelse)
-            elif isinstance(st, ast.If) and version_test_value(st.test) is True:
+            elif isinstance(st, ast.If) and version_test_value(st.test, self._flag_env) is True:
                 self._flatten(st.body)
             elif isinstance(st, ast.Try):
                 # python 3 target: stdlib imports of the try side succeed
@@ -249,6 +258,8 @@ class Program(object):
         trees = dict((name, parse_module(name, text)) for name, text in sources.items())
         from .constprop import propagate
         self.constants_propagated = propagate(trees)
+        from .constprop import canonical_calls
+        self.calls_canonicalised = canonical_calls(trees)
         from .cmexpand import expand as _expand_cms
         self.context_managers_expanded = _expand_cms(trees)
         from .inline import import_foreign_helpers
